@@ -143,7 +143,9 @@ fn scenario(cfg: &Cfg, track: bool) -> Out {
             }
         };
         has_live_boot.push(j > 0 && cfg.list != 3);
-        let ncfg = NodeCfg::new(node_ip(j, cfg.public), 6881).server().bootstrap(&boots).id(id_class(perm[j], 0x3E));
+        let mut ncfg = NodeCfg::new(node_ip(j, cfg.public), 6881).server().bootstrap(&boots).id(id_class(perm[j], 0x3E));
+        // every other node spells its bootstrap list with no_bootstrap() + extra_bootstrap()
+        ncfg.via_extra_bootstrap = (j + cfg.perm + cfg.timing) % 2 == 1;
         let n = w.add_node(ncfg);
         nodes.push(n);
         addrs.push(w.node_addr(n));
